@@ -933,14 +933,17 @@ pub fn run(ctx: &Ctx) {
     rep.set_extra("corpus_projects", json!(corpus.iter().map(|p| p.label.clone()).collect::<Vec<_>>()));
     let strict = std::env::var("VERIF_C26_STRICT_OTHER").is_ok();
     let survey = std::env::var("VERIF_C26_SURVEY").is_ok();
-    let n_nostd = ctx.cases(220, 6000);
-    let n_std = if std::env::var("VERIF_C26_NOSTD_ONLY").is_ok() { 0 } else { ctx.cases(8, 200) };
+    let n_nostd = ctx.cases(96, 4000);
+    let n_std = if std::env::var("VERIF_C26_NOSTD_ONLY").is_ok() { 0 } else { ctx.cases(4, 120) };
     let inconclusive = std::sync::atomic::AtomicU64::new(0);
+    let mut failed = false;
     for (salt, with_std, n) in [(26u64, false, n_nostd), (27u64, true, n_std)] {
-        if rep.violation_count() > 0 || n == 0 {
+        if failed || n == 0 {
             break;
         }
-        let out = run_prop(ctx, salt, n, || strategy(with_std), |c| {
+        let mut ctx2 = ctx.clone();
+        ctx2.threads = ctx.threads.min(n as usize).max(1);
+        let out = run_prop(&ctx2, salt, n, || strategy(with_std), |c| {
             rep.eval();
             match run_case(&corpus, c, strict) {
                 Ok(st) => {
@@ -998,6 +1001,7 @@ pub fn run(ctx: &Ctx) {
             }
         });
         if let Some((c, reason)) = out.failure {
+            failed = true;
             let mut parts = reason.splitn(3, '\u{1}');
             let sig = parts.next().unwrap_or("").to_string();
             let summary = parts.next().unwrap_or("").to_string();
